@@ -103,6 +103,12 @@ func plan(thorough bool) []History {
 									continue
 								case f.coins == 1 && e1 != e2 && (cf || (mid != "" && end != "")):
 									continue
+								case f.coins == 2 && mid != "":
+									continue
+								case rescan && mid != "" && end != "":
+									continue
+								case e1 == "publish" && cf && mid != "":
+									continue
 								}
 							}
 							p = append(p, History{Coins: f.coins, Lease: f.lease, EP1: e1, Mid: mid, EP2: e2,
@@ -113,7 +119,35 @@ func plan(thorough bool) []History {
 			}
 		}
 	}
+	// (e) two (thorough: also three) INDEPENDENT unconfirmed transactions,
+	// each spending exactly its own coin, optionally a child of the first,
+	// then a resynchronisation: every answer class at every rebroadcast
+	// position
+	for _, n := range []int{2, 3} {
+		for _, e := range eps {
+			for _, child := range []bool{false, true} {
+				for _, end := range syncs {
+					if n == 3 && (!thorough || e != "send") {
+						continue
+					}
+					if !thorough && e == "publish" && child {
+						continue
+					}
+					p = append(p, History{Coins: n, Indep: n, Child: child, EP1: e, End: end})
+				}
+			}
+		}
+	}
 	return p
+}
+
+// firstArity is the number of alternatives of the first choice point of a
+// history (the work items are (history, first choice)).
+func firstArity(al *alphabets, h History) int {
+	if h.Indep > 0 {
+		return len(al.resend)
+	}
+	return len(al.initial(h.A1, h.EP1))
 }
 
 // claim decides which worker process runs work item k: first come, first
@@ -133,7 +167,7 @@ func claim(k int) bool {
 	return true
 }
 
-const rule = "every history of the plan (funding 1|2 coins, optional lease, S1 and optional child S2 through SendOutputs|PublishTransaction, optional restart|rescan resynchronisation between and after them, optional block confirming S1) x every backend answer at every broadcast (dynamic choice points, odometer enumeration); after each broadcasting call: error or rejecting answer => unconfirmed set, balances(0..3) and spendable set equal the observation before the call and the tx is unknown; accept/already-in-mempool => call succeeds, tx recorded exactly once, balance(0) = before - inputs + change; already-known/confirmed => call succeeds; after each resynchronisation: the backend was offered exactly the unconfirmed set, each once, parents first, rejected ones and their descendants are gone and the state equals the observation before they were first sent; non-trivial = executions with at least one non-accept answer"
+const rule = "every history of the plan (funding 1|2 coins, optional lease, S1 and optional child S2 through SendOutputs|PublishTransaction, optional restart|rescan resynchronisation between and after them, optional block confirming S1; and 2|3 independent transactions T1..Tn each spending its own coin, optional child of T1, then a restart|rescan resynchronisation) x every backend answer at every broadcast (dynamic choice points, odometer enumeration); after each broadcasting call: error or rejecting answer => unconfirmed set, balances(0..3) and spendable set equal the observation before the call and the tx is unknown; accept/already-in-mempool => call succeeds, tx recorded exactly once, balance(0) = before - inputs + change; already-known/confirmed => call succeeds; after each resynchronisation: the backend was offered exactly the unconfirmed set, each once, parents first, rejected ones and their descendants are gone, their inputs are spendable again, their outputs no longer count and (when nothing unrelated was sent since) the state equals the observation before they were first sent; non-trivial = executions with at least one non-accept answer"
 
 // Run is the entry point: args[0] = quick | thorough.
 func Run(args []string) {
@@ -171,7 +205,7 @@ func Run(args []string) {
 	if !ev.IsWorker() {
 		cov := run.RunSharded(workers, append(append([]string{}, ShardArgsPrefix...), args...))
 		cov["rule"] = rule
-		cov["bounds"] = fmt.Sprintf("coins<=2 (1e8,2e8, P2WPKH BIP84 account 0), <=2 wallet sends (S1, child S2), <=2 resynchronisations (restart|rescan), <=1 confirming block, <=1 lease; initial-broadcast alphabet full=%d answers (accept, in-mempool, wrapped in-mempool, known, confirmed, %d other sentinels, opaque, NotifyReceived failure, change-subscription failure) or reduced=%d; rebroadcast alphabet=%d; full x full product for two-broadcast histories without resynchronisation (thorough, 1 coin), full x reduced + reduced x (full minus reduced) or reduced x reduced otherwise; reduced alphabets in histories with resynchronisations between two sends",
+		cov["bounds"] = fmt.Sprintf("coins<=3 (1e8,2e8,3e8, P2WPKH BIP84 account 0), <=2 wallet sends in a chain (S1, child S2) or <=3 independent sends plus one child (initial answers accept, all 6 answer classes at each of the <=4 rebroadcast positions), <=2 resynchronisations (restart|rescan), <=1 confirming block, <=1 lease; initial-broadcast alphabet full=%d answers (accept, in-mempool, wrapped in-mempool, known, confirmed, %d other sentinels, opaque, NotifyReceived failure, change-subscription failure) or reduced=%d; rebroadcast alphabet=%d; full x full product for two-broadcast histories without resynchronisation (thorough, 1 coin), full x reduced + reduced x (full minus reduced) or reduced x reduced otherwise; reduced alphabets in histories with resynchronisations between two sends",
 			len(al.full), al.nRPC-3+al.nVar, len(al.reduced), len(al.resend))
 		cov["histories"] = len(plan(run.Thorough()))
 		cov["sentinel_errors_enumerated"] = al.nRPC + al.nVar
@@ -182,6 +216,7 @@ func Run(args []string) {
 			"the backend is the scripted fake chain.Interface of wsim; every notification is fed by the harness (no unconfirmed RelevantTx echo of the wallet's own sends)",
 			"already-known / already-confirmed answers: only success of the call is required, the record is left open by the statement",
 			"a transaction whose ancestor was answered with a removing class in the same resynchronisation may or may not be re-offered",
+			"the order in which independent transactions are re-offered is the wallet's (map iteration in its dependency sort); answers are enumerated per rebroadcast position, the oracle maps them to transactions through the backend's log",
 		}
 		run.Finish(cov)
 		return
@@ -211,7 +246,7 @@ func Run(args []string) {
 outer:
 	for hi := len(hs) - 1; hi >= 0; hi-- {
 		h := hs[hi]
-		n1 := len(al.initial(h.A1, h.EP1))
+		n1 := firstArity(al, h)
 		for c1 := 0; c1 < n1; c1++ {
 			k++
 			if !claim(k) {
